@@ -21,9 +21,10 @@ static char *join(const text_t *t) { size_t n = 1; for (int i = 0; i < t->n; i++
 static int indent_of(const char *l) { int i = 0; while (l[i] == ' ') i++; return i; }
 static int item_indent(const char *l) { int i = indent_of(l); return l[i] == '-' ? i : -1; }
 static const char *REPL[6] = {"", "0x", "0xGG", "256", "-1", "aaaaaaaaaaaaaaaaaaaaaaaaaaaaaaaaaaaaaaaaaaaaaaaaaaaaaaaaaaaaaaaaaaaaaaaaaaaaaaaaaaaaaaaaaaaaaaaaaaaaaaaaaaaaaaaaaaaaaaaaaaaaaaaaaaaaaaaaaaaaaaaa"};
-enum { K_DELETE, K_DELVALUE, K_DUPBLOCK, K_RENAME, K_SWAP, K_TOSEQ, K_TOMAP, K_TOSCALAR, K_TRUNC, K_REPL0, K_REPL1, K_REPL2, K_REPL3, K_REPL4, K_REPL5, K_REUSE, K_N };
+enum { K_DELETE, K_DELVALUE, K_DUPBLOCK, K_RENAME, K_SWAP, K_TOSEQ, K_TOMAP, K_TOSCALAR, K_TRUNC, K_REPL0, K_REPL1, K_REPL2, K_REPL3, K_REPL4, K_REPL5, K_REUSE, K_LONG1, K_LONG2, K_LONG3, K_N };
+static const int LONGLEN[3] = {1000, 2100, 70000};     /* scalars around and beyond every fixed-size text buffer a log line or a conversion might use */
 static const char *KNAME[K_N] = {"delete line", "delete value", "duplicate entry block", "rename key", "swap with next sibling", "scalar->sequence", "scalar->mapping", "section->scalar", "truncate after line",
-	"value=''", "value=0x", "value=0xGG", "value=256", "value=-1", "value=very long", "re-use previous value of the same key"};
+	"value=''", "value=0x", "value=0xGG", "value=256", "value=-1", "value=very long", "re-use previous value of the same key", "value=1000 characters", "value=2100 characters", "value=70000 characters"};
 /* applies mutation k at line i; returns NULL if not applicable */
 static char *mutate(const char *src, int k, int i) {
 	text_t t; split(src, &t); if (i >= t.n) return NULL;
@@ -45,6 +46,8 @@ static char *mutate(const char *src, int k, int i) {
 	case K_REUSE: { if (!has_value) break; char key[64]; int ks = ind; if (l[ks] == '-') ks += 2; int kl = (int) (colon - (l + ks)); if (kl <= 0 || kl > 60) break; snprintf(key, sizeof key, "%.*s:", kl, l + ks);
 		int j; for (j = i - 1; j >= 0; j--) { const char *c = strstr(t.line[j], key); if (c && c[kl + 1] == ' ' && (c == t.line[j] || c[-1] == ' ')) { snprintf(buf, sizeof buf, "%.*s %s", (int) (colon - l + 1), l, c + kl + 2); break; } }
 		if (j < 0 || !strcmp(buf, l)) break; t.line[i] = strdup(buf); res = join(&t); break; }
+	case K_LONG1: case K_LONG2: case K_LONG3: { if (!has_value) break; int L = LONGLEN[k - K_LONG1]; size_t pre = (size_t) (colon - l + 1); char *nl = malloc(pre + (size_t) L + 4);
+		memcpy(nl, l, pre); nl[pre] = ' '; for (int q = 0; q < L; q++) nl[pre + 1 + (size_t) q] = (char) ('a' + q % 26); nl[pre + 1 + (size_t) L] = 0; t.line[i] = nl; res = join(&t); break; }
 	default: if (k >= K_REPL0 && k <= K_REPL5) { if (!has_value) break; snprintf(buf, sizeof buf, "%.*s %s", (int) (colon - l + 1), l, REPL[k - K_REPL0]); t.line[i] = strdup(buf); res = join(&t); } break;
 	}
 	return res;
